@@ -21,9 +21,12 @@ from concurrent.futures import ThreadPoolExecutor
 from pv import lib_net
 from pv.core import REPO, exc_site
 
+# "<api>@<pre>": the channel is first put into a half-closed state by the application (pre = shutdown_read | shutdown_2)
+PRE_APIS = ["recv@shutdown_read", "recv@shutdown_2", "recv_stderr@shutdown_read", "recv_stderr@shutdown_2",
+            "recv_stderr", "send_stderr", "recv_exit_status@shutdown_read"]
 APIS = ["recv", "recv_timeout", "send", "sendall", "exec_command", "recv_exit_status", "open_session",
         "global_request", "renegotiate_keys", "auth_password", "start_client", "accept", "ensure_session"]
-ROW = {"recv": "recv", "recv_timeout": "recv", "send": "send", "sendall": "send",
+ROW = {"recv_stderr": "recv", "send_stderr": "send", "recv": "recv", "recv_timeout": "recv", "send": "send", "sendall": "send",
        "exec_command": "channel_request", "recv_exit_status": "recv_exit_status",
        "open_session": "open_channel", "global_request": "global_request",
        "renegotiate_keys": "renegotiate_keys", "auth_password": "auth_wait_for_response",
@@ -53,6 +56,7 @@ def scenario(api, loss, phase, T, seed):
     from paramiko.transport import ServiceRequestingTransport
 
     rng = random.Random(seed)
+    api, _, pre = api.partition("@")
     server_side = api == "accept"
     kw = {}
     if api in ("auth_password", "start_client"):
@@ -71,7 +75,8 @@ def scenario(api, loss, phase, T, seed):
             tc, ts, sc, ss, srv = lib_net.make_pair(**kw)
         target, tsock, peer = (ts, ss, tc) if server_side else (tc, sc, ts)
         chan = None
-        if api in ("recv", "recv_timeout", "send", "sendall", "exec_command", "recv_exit_status") or \
+        if api in ("recv", "recv_timeout", "send", "sendall", "exec_command", "recv_exit_status", "recv_stderr",
+                   "send_stderr") or \
                 api in REQ_APIS or (api == "accept" and phase == "during"):
             chan = tc.open_session(timeout=15)
             schan = ts.accept(5)  # keep a reference: a collected Channel closes itself
@@ -79,9 +84,13 @@ def scenario(api, loss, phase, T, seed):
                 raise RuntimeError("server did not accept the channel")
         if api == "recv_timeout":
             chan.settimeout(120)
-        if api in ("send", "sendall"):
+        if api in ("send", "sendall", "send_stderr"):
             with chan.lock:
                 chan.out_window_size = 0  # the peer's window is exhausted: the sender must wait
+        if pre == "shutdown_read":
+            chan.shutdown_read()
+        elif pre == "shutdown_2":
+            chan.shutdown(2)
         if api in ("exec_command", "open_session", "global_request", "renegotiate_keys", "auth_password",
                    "ensure_session") or api in REQ_APIS:
             ss.hold()  # the peer never hears the request, so no reply ever comes
@@ -89,6 +98,10 @@ def scenario(api, loss, phase, T, seed):
         def call():
             if api in ("recv", "recv_timeout"):
                 return chan.recv(10)
+            if api == "recv_stderr":
+                return chan.recv_stderr(10)
+            if api == "send_stderr":
+                return chan.send_stderr(b"x" * 10)
             if api == "send":
                 return chan.send(b"x" * 10)
             if api == "sendall":
@@ -483,7 +496,7 @@ def run(ctx):
             prog_len[k] = 0 if not line else len(line.split(","))
         ctx.extra["wakeups_from_source"] = {"%s/%s" % k: v for k, v in zip(rows_lm, pl)}
     reqs, keys = [], []
-    for api in APIS:
+    for api in APIS + ["recv_stderr", "send_stderr"]:
         for lm in ("remote", "local"):
             for phase in PHASES:
                 n = prog_len.get((ROW[api], lm), 3)
@@ -498,6 +511,7 @@ def run(ctx):
 
     # ---- real side
     jobs = [(a, l, p, rep) for a in APIS for l in LOSSES for p in PHASES for rep in range(reps)]
+    jobs += [(a, l, p, 0) for a in PRE_APIS for l in ("eof", "disconnect", "local_close") for p in PHASES]
     ctx.rng.shuffle(jobs)
 
     def do(job):
@@ -525,7 +539,7 @@ def run(ctx):
             ctx.sample({"api": a, "loss": l, "phase": p, "result": r})
         returned = out == "returned" or out.startswith("raised:")
         lm = "local" if l == "local_close" else "remote"
-        want = predict.get((a, lm, p))
+        want = predict.get((a.partition("@")[0], lm, p))
         if want is not None and want != returned:
             ctx.disagree("returns-after-loss", {"api": a, "loss": l, "phase": p}, "returns" if want else "blocks", out)
         if out == "blocked":
@@ -551,7 +565,7 @@ def run(ctx):
     if drep is not None:
         for k, r in zip(dkeys, drep):
             dpred[k] = dpred.get(k, True) and ("prompt=1" in r and "fin=1" in r)
-    DAPIS = [a for a in APIS if a != "start_client"]
+    DAPIS = [a for a in APIS if a != "start_client"] + PRE_APIS
     djobs = [(a, l, "during") for a in DAPIS for l in ("eof", "disconnect", "local_close")]
     djobs += [(a, l, "race") for a in REQ_APIS for l in ("eof", "disconnect", "local_close")]
     ctx.rng.shuffle(djobs)
@@ -575,7 +589,7 @@ def run(ctx):
             ctx.sample({"api": a, "loss": l, "phase": p, "result": r})
         returned = out == "returned" or out.startswith("raised:")
         lm = "local" if l == "local_close" else "remote"
-        row = ROW.get(a, "channel_request")
+        row = ROW.get(a.partition("@")[0], "channel_request")
         want = dpred.get((row, lm))
         if want is not None and want != returned:
             ctx.disagree("returns-after-loss:" + p, {"api": a, "loss": l, "phase": p},
